@@ -42,6 +42,30 @@ def gen_inputs(ctx):
             out.append(("B58Dec", T(R.b58enc(b)), ("dec", n > 32, z == 0, z == n)))
             if n <= 80 and (not q or n % 4 == 1):
                 out.append(("B58EncCheck", B(b), ("enccheck", z == 0, z == n)))
+    # digit-structured values: interior and trailing runs of the zero digit '1' (and of the top digit 'z') of every
+    # length 1..12 at every alignment, powers and multiples of 58 and 256, sparse expansions - carries, limb and chunk
+    # boundaries of any faster encoder/decoder live here and nowhere in random data
+    def both(sv, key):
+        out.append(("B58Dec", T(sv), ("dec-" + key[0],) + key[1:]))
+        b = R.b58dec(sv)
+        if b:
+            out.append(("B58Enc", B(b), ("enc-" + key[0],) + key[1:]))
+    for run in range(1, 13):
+        for tail in (range(0, 13) if not q else (0, 1, 4, 5, 6, 10)):
+            for dch in "1z":
+                head = rng.choice(alpha[1:]) + "".join(rng.choice(alpha) for _ in range(rng.randrange(0, 3)))
+                tl = "".join(rng.choice(alpha[1:]) for _ in range(tail))
+                both(head + dch * run + tl, ("digitrun", dch, run >= 5, tail % 5 == 0))
+    for k in range(1, 41 if not q else 24):
+        for a in (1, 2, 57, 58 ** 2 + 1, rng.randrange(1, 58 ** 3)):
+            for v in (a * 58 ** k, a * 58 ** k + rng.randrange(58), a * 58 ** k - 1):
+                both(R.b58enc(v.to_bytes((v.bit_length() + 7) // 8, "big")), ("pow58", k % 5 == 0, a == 1))
+        for v in (256 ** k, 256 ** k - 1, 256 ** k + 1):
+            both(R.b58enc(v.to_bytes((v.bit_length() + 7) // 8, "big")), ("pow256", k > 8))
+    for _ in range(150 if q else 3000):
+        n = rng.randrange(4, 45)
+        sv = rng.choice(alpha[1:]) + "".join(rng.choice(alpha) if rng.random() < 0.25 else "1" for _ in range(n))
+        both(sv, ("sparse", n > 20))
     # look-alikes and non-alphabet characters in plain decode
     for ch in LOOKALIKE + " +/-_é一":
         for base in ("", "1", "abc", "1z"):
